@@ -220,7 +220,8 @@ CLAIMED = {
              "remove, remove_all (off the root), symlink, readlink / readlink_abs, move_p (Memfs/RefineMove.v), set_cwd, cwd, root, abs, chown without follow, chmod with both octal values and without follow "
              "(Memfs/RefineChmod.v), mkfile_m, the listing helpers paths / dirs / files / all_paths / all_dirs / all_files (Memfs/RefineList.v: the qualifying paths "
              "below the directory in increasing lexicographic order, stated without a traversal), copy of a link-free source to a fresh destination or of a "
-             "directory into an existing one (Memfs/RefineCopy.v) and the queries "
+             "directory into an existing one (Memfs/RefineCopy.v), entries() sorted by name without follow / dirs_first / files_first / contents_first "
+             "(Memfs/RefineEntries.v) and the queries "
              "(exists, is_dir, is_file, is_symlink, is_symlink_dir, is_exec, is_readonly, mode, owner, uid, gid) gives call by call exactly the "
              "reference's value or error kind and ends in exactly the reference's tree (history_refines). move_p is specified exactly and proved in Memfs/WfMove.v (C09). "
              "The mirror is tied to the real Memfs by a model-guided BFS of every reachable state of a bounded namespace x the full call "
